@@ -110,6 +110,51 @@ def load_known():
     return known, fixed
 
 
+def _as_list(r):
+    return [r] if isinstance(r, RuleOut) else list(r)
+
+
+def two_views(repo, fn, tier, pid, known):
+    """Run one rule on the functions as written; if it reports something new or loses an anchor, look a second time with the
+    anchor functions' private same-file helpers expanded in place (vstat.inline).  A violation must be visible in both views:
+    a maintainer who moves the reset / the length test / the rollback into a helper has not removed it.  The second view never
+    adds reports of its own."""
+    repo.inline_view = False
+    err = None
+    try:
+        raw = _as_list(fn(repo, tier))
+    except AnalysisError as e:
+        raw, err = None, e
+    new_raw = [] if raw is None else [rep for o in raw for rep in o.reports if (pid, rep.rule, rep.key) not in known]
+    if raw is not None and not new_raw:
+        return raw
+    repo.inline_view = True
+    try:
+        try:
+            inl = _as_list(fn(repo, tier))
+        except AnalysisError as e2:
+            if raw is None:
+                raise err
+            return raw
+    finally:
+        repo.inline_view = False
+    new_inl = [rep for o in inl for rep in o.reports if (pid, rep.rule, rep.key) not in known]
+    if raw is None:
+        # the anchor was only recognisable with the helpers expanded: that view decides
+        for o in inl:
+            o.what += "  [decided on the helper-expanded view: the anchor construct lives in a private helper]"
+        return inl
+    if new_inl:
+        return raw
+    # reported on the function as written, not with its helpers expanded: the construct moved into a helper -> not a violation
+    for o in raw:
+        moved = [rep for rep in o.reports if (pid, rep.rule, rep.key) not in known]
+        o.reports = [rep for rep in o.reports if (pid, rep.rule, rep.key) in known]
+        for rep in moved:
+            o.undecide(rep.file, rep.func, rep.construct, "not confirmed on the helper-expanded view (the construct lives in a private helper): " + rep.msg[:160])
+    return raw
+
+
 def run_property(pid, spec, tier="quick", seed=0, out=sys.stdout):
     """spec: dict(title, explanation, rules=[(fn, tiers)], assumptions, trusted_base)"""
     t0 = time.time()
@@ -118,15 +163,11 @@ def run_property(pid, spec, tier="quick", seed=0, out=sys.stdout):
     try:
         repo = get_repo()
         outs = []
+        known, _fixed = load_known()
         for fn, tiers in spec["rules"]:
             if tier not in tiers:
                 continue
-            r = fn(repo, tier)
-            if isinstance(r, RuleOut):
-                outs.append(r)
-            else:
-                outs.extend(r)
-        known, _fixed = load_known()
+            outs.extend(two_views(repo, fn, tier, pid, known))
     except AnalysisError as e:
         print("ANALYSIS-ERROR property=%s %s" % (pid, e), file=out)
         return 2
